@@ -1084,6 +1084,19 @@ func (c *specCtx) call(n *SCall) (Val, types.Type) {
 			c.fail("marshalLen needs an interface value")
 		}
 		return scalar(tb.App("marshallen", SInt, v.T[0], v.T[1])), untypedInt
+	case "tokByte":
+		// tokByte(v, j): byte j of the byte-slice token with value v (token model)
+		v, _ := arg(0)
+		j, _ := arg(1)
+		return scalar(tb.Select(tb.App("tokbytes", SArrI, v.T[0]), j.T[0])), untypedInt
+	case "wtokByte":
+		v, _ := arg(0)
+		return v, untypedInt
+	case "getbit":
+		// getbit(x, s): bit s of the unsigned integer x (the function the engine uses for (x >> s) % 2 and x | 1<<s)
+		x, _ := arg(0)
+		sft, _ := arg(1)
+		return scalar(c.e.getbit(c.st, x.T[0], sft.T[0])), untypedInt
 	case "unixnano":
 		// unixnano(t): the value of t.UnixNano() (uninterpreted function of the time value)
 		v, T := arg(0)
